@@ -134,13 +134,13 @@ def _ref_spec(self, old, pos, token):
 
 
 @bounded("ISO-spellings-read-back-as-the-value", props=["C01"],
-         bound="quick: 400 random object trees (depth <= 3) each in 2 random conformant spellings, read through PDFStreamParser at BUFSIZ 4096,1,2,3,7 and through PDFDocument.getobj at two file offsets; thorough: 8000 trees")
+         bound="quick: 400 random object trees (depth <= 3) each in 2 random conformant spellings, read through PDFStreamParser at BUFSIZ 4096,1,2,3,7 and through PDFDocument.getobj at two file offsets; thorough: 60000 trees")
 def _(tier, seed):
     import io, random
     from specs import isolex as IL
     from specs.pdfgen import build, Name, Ref, Raw
     rng = random.Random(seed + 1)
-    n = 400 if tier == "quick" else 8000
+    n = 400 if tier == "quick" else 60000
     PS = real_module("pdfminer.psparser")
     saved = PS.PSBaseParser.BUFSIZ
     PDFStreamParser = pp.PDFStreamParser
